@@ -16,6 +16,12 @@ import (
 	<% } %>
 */
 func ContentFor(name string, help hctx.HelperContext) {
+	if help == nil {
+		// called with an explicit nil instead of the helper context: there
+		// is no block to store and no context to store it in
+		return
+	}
+
 	help.Set("contentFor:"+name, func(data hctx.Map) (template.HTML, error) {
 		hctx := help.New()
 		for k, v := range data {
